@@ -1,13 +1,17 @@
 //! C15 — ToUnicode CMaps decode text as the CMap defines.
 //!
-//! `replay`: cases emitted by TLC (MC_CMap): CMap program text + code byte strings.  The program is
-//! stored as the ToUnicode stream of a font dictionary, `Dictionary::get_font_encoding(&doc)` builds
-//! the encoding and `Document::decode_text` decodes every code on its own and the whole string.
+//! `replay`: cases emitted by TLC (MC_CMap): CMap program text, the /Encoding form of the font that
+//! carries it and code byte strings.  The program is stored as the ToUnicode stream of such a font
+//! dictionary, `Dictionary::get_font_encoding(&doc)` builds the encoding and `Document::decode_text`
+//! decodes every code on its own and the whole string (with whatever encoding came back).
 //! `record`: seeded random mapping tables (1-4 byte codes, prefix-free code spaces incl. the
 //! boundaries 00 / FF.. , overlapping / touching / equal-valued definitions, BMP, astral and
-//! multi-unit targets, arrays) rendered as program text with random sectioning (<= 100 entries per
-//! section), hex case and white-space; the rendered definition list, the codes and lopdf's results
-//! are logged for Trace_CMap.
+//! multi-unit targets, arrays) rendered as program text - a token sequence with classified gaps that
+//! mirrors CMap!ProgramToks - with random sectioning (<= 100 entries per section), hex case and the
+//! white-space lopdf's grammar takes everywhere; one record in two departs from that in one respect
+//! (CMap!sty: a separator at every gap of one class, white space inside hexadecimal strings, a
+//! zero-entry section, further CMap dictionary entries, the /Encoding form of the font).  The
+//! rendered definition list, the style, the codes and lopdf's results are logged for Trace_CMap.
 use lopdf::{Dictionary, Document, Encoding, Object, Stream};
 use lopdf_conform::{guard::guarded, io::*, rng::Rng};
 use serde_json::{json, Value};
@@ -869,13 +873,62 @@ fn record(args: &[String]) {
     let mut rng = Rng::new(seed ^ 0xC15);
     let corners = if arg_u64(args, "--corners", 1) > 0 { corner_tables() } else { vec![] };
     let nc = corners.len() as u64;
-    let total = n + nc;
+    // every style class once more on corner tables, whatever the seed draws (table index, style, font form)
+    let mk = |k: &str, a: &str, b: &str, s: &[&str]| Sty { k: k.into(), a: a.into(), b: b.into(), s: s.iter().map(|x| x.to_string()).collect() };
+    let probes: Vec<(usize, Sty, &'static str)> = if nc == 0 {
+        vec![]
+    } else {
+        vec![
+            (2, mk("font", "WinAnsiEncoding", "", &[]), "WinAnsiEncoding"),
+            (0, mk("font", "MacExpertEncoding", "", &[]), "MacExpertEncoding"),
+            (3, mk("font", "UniJIS-UTF16-H", "", &[]), "UniJIS-UTF16-H"),
+            (3, mk("font", "UniGB-UCS2-H", "", &[]), "UniGB-UCS2-H"),
+            (4, mk("font", "dict.base.diff", "", &[]), "dict.base.diff"),
+            (4, mk("font", "Identity-V", "", &[]), "Identity-V"),
+            (3, mk("gap", "opnd", "", &["lf"]), "Identity-H"),
+            (2, mk("gap", "ent", "", &[]), "absent"),
+            (3, mk("gap", "cnt", "", &["crlf"]), "Identity-H"),
+            (3, mk("gap", "op", "", &[]), "Identity-H"),
+            (3, mk("gap", "arr", "", &["tab"]), "Identity-H"),
+            (3, mk("gap", "meta", "", &[]), "Identity-H"),
+            (2, mk("gap", "prolog", "", &["cmt"]), "Identity-H"),
+            (3, mk("gap", "cs.pair", "", &["lf"]), "Identity-H"),
+            (3, mk("gap", "trailer", "", &["lf"]), "Identity-H"),
+            (2, mk("gap", "opnd", "", &["ff"]), "Identity-H"),
+            (3, mk("gap", "ent", "", &["nul", "lf"]), "Identity-H"),
+            (3, mk("hex", "src", "byte", &["sp"]), "Identity-H"),
+            (3, mk("hex", "tgt", "nib", &["lf"]), "Identity-H"),
+            (2, mk("hex", "tgt", "lead", &["sp"]), "Identity-H"),
+            (3, mk("empty", "range.last", "", &[]), "Identity-H"),
+            (3, mk("empty", "char.first", "", &[]), "Identity-H"),
+            (2, mk("head", "wmode", "", &[]), "Identity-H"),
+            (2, mk("head", "version", "", &[]), "Identity-H"),
+            (3, mk("head", "xuid", "", &[]), "Identity-H"),
+            (3, mk("head", "uidoffset", "", &[]), "Identity-H"),
+            (3, mk("head", "dictdup", "", &[]), "Identity-H"),
+            (3, mk("head", "order", "", &[]), "Identity-H"),
+        ]
+    };
+    let total = n + nc + probes.len() as u64;
     for r in 0..total {
         let big = r < n && r % 16 == 15;
-        let (layout, defs) = if r < n { gen_table(&mut rng, big) } else { corners[(r - n) as usize].clone() };
+        let (layout, defs) = if r < n {
+            gen_table(&mut rng, big)
+        } else if r < n + nc {
+            corners[(r - n) as usize].clone()
+        } else {
+            corners[probes[(r - n - nc) as usize].0].clone()
+        };
         // one record in two departs from the tolerated spelling / font dictionary in one respect (CMap!sty)
         let one_byte_only = defs.iter().all(|d| d.len == 1);
-        let (sty, form) = if big { (canon(), "Identity-H") } else { draw_style(&mut rng, one_byte_only) };
+        let (sty, form) = if r >= n + nc {
+            let p = &probes[(r - n - nc) as usize];
+            (p.1.clone(), p.2)
+        } else if big {
+            (canon(), "Identity-H")
+        } else {
+            draw_style(&mut rng, one_byte_only)
+        };
         let text = render(&mut rng, &layout, &defs, &sty);
         // codes: ends and interior points of definitions (all of them are mapped codes)
         let mut codes: Vec<Vec<u8>> = vec![];
